@@ -56,6 +56,9 @@ CHECKS = {
  "C19": dict(cat="model_checking", ref="DESIGN.md 4 C19, A.8", tech="TLA+ state machine TransTable.tla with PropertyView/CodeView layers; TLC exhaustive model checking; trace validation of recorded executions of the real table; replay of TLC-simulated behaviours and TLC counterexamples on the real table",
    text="TransTable.tla separates what C19 states (PropertyView, on the true search number) from the transcription of the code (CodeView, 8-bit age = search mod 256). TLC explores the complete reachable state space of a bounded model (3/2 slots, 5 keys with colliding pairs, depths 0..2, 3 bounds, 4 stored ages, every interleaving of insert/probe/new-search/reset/resize) and shows CodeView => PropertyView whenever fewer than GenMod searches lie between two emptyings, and that age aliasing is the only failure across a full wrap. Every operation of ~10^4 (quick) / ~10^6 (thorough) random, TLC-generated and TLC-counterexample operation sequences executed on the real table in the checked and the optimised build, sizes 1/2/3/16 MB and once 1024 MB, is a validated step of the trace specification.",
    note="One entry per slot assumed; f32 permille compared with tolerance 1. Open known finding: an entry exactly 256k searches old is treated as current."),
+ "C16": dict(cat="model_checking", ref="DESIGN.md 4 C16", tech="TLA+ blend/packing definitions (EvalBlend.tla) evaluated exhaustively by TLC on a boundary grid; recorded evaluations of TLC-generated extreme-material positions and their TLC-validated colour mirrors judged by Trace_Eval.tla",
+   text="EvalBlend.tla states the blend as coded and the between-ness the property demands; TLC evaluates it on a 25x25 grid x phase 0..100 plus carry-freedom of the packed two-phase number. The same triples go through the real for_phase. Positions with material far outside normal play (TLC-generated: up to nine queens, ten rooks or ten minors a side behind pawn walls, phase up to 88), material signatures, near-mate endings, walk and bench positions are evaluated in both builds; TLC checks no panic, eval = eval of the mirror (mirror validated against Chess!Mirror), |eval| < 31900 and eval between the pure middlegame and pure endgame assessments.",
+   note="Evaluation terms are not re-derived in TLA+; C16 is decided through metamorphic clauses. Symbolic discharge of the blend clause with Apalache is a growth item."),
 }
 
 def main():
